@@ -96,7 +96,75 @@ def special_exprs(xd, r, fr):
     return out
 
 
+def ckey_targets(r):
+    """refs with computed keys (each evaluates to index 0 of the list) built from every node class"""
+    import math as _m
+    c = r["c"]
+    return [("abs", lambda r: r["l"][abs(r["c"]) * 0]), ("round1", lambda r: r["l"][round(r["c"]) * 0]),
+            ("round2", lambda r: r["l"][round(r["c"], 2) * 0]), ("floor", lambda r: r["l"][_m.floor(r["c"]) * 0]),
+            ("neg", lambda r: r["l"][(-r["c"]) * 0]), ("mul", lambda r: r["l"][r["c"] * 0]),
+            ("call", lambda r: r["l"][r._manager.containers["f"].g(r["c"], r["b"]) * 0]),
+            ("trunc_plain", lambda r: r["l"][_m.trunc(r["c"]) * 0 + 0])]
+
+
+def run_ckey(ex, case):
+    """definitions on a target whose key is computed; the restored manager must treat later
+    assignments to that same target like the original does"""
+    xd = get_xdeps(case["build"])
+    st = c03.HState(ex, case["build"])
+    st.fr._owner.g = U.UFunc("g", 2)
+    st.g = st.fr._owner.g
+    specs = ckey_targets(st.r)
+    if case["idx"] >= len(specs):
+        return
+    name, mk = specs[case["idx"]]
+    note(ex, "node_class_manager")
+    st.m.set_value(mk(st.r), st.r["a"] * 2)
+    det = {"target": str(mk(st.r))}
+    try:
+        m2 = pickle.loads(pickle.dumps(st.m))
+    except (Abort, Inconclusive):
+        raise
+    except BaseException as e:
+        ex.fail(f"pickle round trip raised {type(e).__name__}: {str(e)[:120]}", det)
+        return
+    note(ex, "roundtrip")
+    cp = shadow(st, m2)
+    seqs = [("value", "a"), ("iadd", "a"), ("expr", "a"), ("value", "b")]
+    seq = seqs[ex.choose(len(seqs))]
+    v1, v2 = ex.int("ck_v1"), ex.int("ck_v2")
+    outs = []
+    for w in (st, cp):
+        try:
+            tgt = mk(w.r)
+            if seq[0] == "value":
+                w.m.set_value(tgt, v1)
+            elif seq[0] == "iadd":
+                w.m.set_value(tgt, tgt.__iadd__(v1))
+            else:
+                w.m.set_value(tgt, w.r["b"] + 1)
+            U.assign(w.r, seq[1], v2)
+            outs.append(None)
+        except (Abort, Inconclusive):
+            raise
+        except Exception as e:
+            outs.append(f"{type(e).__name__}: {str(e)[:60]}")
+    note(ex, "followup_both")
+    if outs[0] != outs[1]:
+        ex.fail(f"follow-up on the computed-key target behaves differently: original {outs[0]}, copy {outs[1]}", det)
+        return
+    if sorted(map(tuple, st.m.dump())) != sorted(map(tuple, cp.m.dump())):
+        ex.fail(f"after re-assigning the computed-key target ({seq}), definitions differ: {st.m.dump()} vs {cp.m.dump()}", det)
+        return
+    for M in U.ALL_LOCS:
+        if not ex.prove(same(U.getval(st.d, M), U.getval(cp.d, M)),
+                        f"after re-assigning the computed-key target ({seq}) on both, {M} differs between original and copy", det):
+            return
+
+
 def run_case(ex, case):
+    if case["mode"] == "ckey":
+        return run_ckey(ex, case)
     xd = get_xdeps(case["build"])
     st = c03.HState(ex, case["build"])
     st.fr._owner.g = U.UFunc("g", 2)
@@ -233,6 +301,8 @@ def cases(tier):
     for b in builds:
         for i in range(60):
             out.append({"mode": "class", "build": b, "idx": i})
+        for i in range(8):
+            out.append({"mode": "ckey", "build": b, "idx": i})
         cand = [(t, dsc) for t in LOCS for dsc in U.candidates(t, LOCS, False)]
         maxd = 2 if tier == "quick" else 3
         n = 0
